@@ -166,6 +166,20 @@ CLAIMED.update({
         design="8/C16"),
 })
 
+CLAIMED.update({
+    "C17": dict(
+        text=("Theorems about Backup.loop over a virtual clock (oracles: write generation over time, outcome and duration of every upload, cancellation instant): the repaired loop never "
+              "iterates without consuming time (quiescent); consecutive upload attempts are at least one period apart for every timeline, failure script and cancellation; the first "
+              "iteration uploads; an iteration whose generation equals the one covered by the last successful upload only waits; a failed upload leaves the covered generation unchanged and "
+              "is retried one period later; a successful one covers exactly the generation sampled before the file was read; with enough iterations the task returns after cancellation. "
+              "The pre-repair loop (wait inside the if) is kept as a mode and proved by evaluation to spin (d3_original_spins). Facts: the select is a direct statement of the for body, the "
+              "period is one minute, the body is one whole-file read. Tie: the real loop (verif-tag hook) with a real s3.Client over an in-memory endpoint under synctest; every uploaded body "
+              "must be a file version that existed and open with db.Open; schedule, outcomes and exit time compared with the model; a frozen virtual clock is reported as spinning."),
+        note=COMMON_NOTE + "Modelled, not verified: AWS SDK below HTTPClient.Do, synctest, rename atomicity of the database file (C04). Hook: server/verif_hooks.go (tag verif).",
+        technique="Lean 4 theorems (induction on loop fuel; spacing invariant on the attempt list) + kernel evaluation of the original mode + virtual-time runs of the real loop",
+        design="8/C17"),
+})
+
 NOT_YET = {}
 
 def manifest():
@@ -192,7 +206,7 @@ def manifest():
         version=1,
         setup_cmd="bin/setup",
         hooks=dict(guard="verif", enable="go build -tags verif (harness/cmd/trace is built with -tags verif against /repo's working tree)",
-                   baseline_off_cmd=BASELINE_OFF, source_commits=[], add_only=True),
+                   baseline_off_cmd=BASELINE_OFF, source_commits=["e3b9ff9"], add_only=True),
         engines=[
             dict(name="lean4-proof+correspondence", path="lean/ harness/ bin/check lib/",
                  serves_properties=sorted(CLAIMED), kind_free_text="Lean 4 model + theorems (lake project, core only), go/ast fact extractor regenerating Generated/Facts.lean, Go differential harness + compiled Lean driver evaluating the same monitor predicates the theorems are about"),
